@@ -1,3 +1,4 @@
+import IslaVerif.Driver.XPath
 import IslaVerif.Model.Sexp
 import IslaVerif.Driver.C04
 import IslaVerif.Driver.C09
@@ -36,6 +37,7 @@ def dispatch : Sexp → Sexp
   | .list (.atom "alpha" :: rest) => AlphaD.handle rest
   | .list (.atom "tgt" :: rest) => TargetsD.handle rest
   | .list (.atom "fmt" :: rest) => FormatsD.handle rest
+  | .list (.atom "c08" :: rest) => XPathD.handle rest
   | _ => .atom "bad-request"
 
 end IslaVerif.Driver
